@@ -248,7 +248,8 @@ func errName(err error) string {
 }
 
 // Invoke starts an invocation by caller c (asynchronously; the outcome is logged).
-func (s *Stack) Invoke(c int, payload []byte, trace string) {
+// Init performs the platform's Init (once); Invoke does it implicitly like the RIE front end.
+func (s *Stack) Init() {
 	if !s.inited {
 		s.inited = true
 		cust := map[string]string{}
@@ -271,6 +272,10 @@ func (s *Stack) Invoke(c int, payload []byte, trace string) {
 			EnvironmentVariables:         env.NewEnvironment(),
 		}, s.Cfg.TimeoutMs)
 	}
+}
+
+func (s *Stack) Invoke(c int, payload []byte, trace string) {
+	s.Init()
 	atomic.AddInt32(&s.callers, 1)
 	s.L.Add("caller%d start %s", c, hash(payload))
 	go s.invokeCaller(c, payload, trace)
